@@ -5,7 +5,10 @@ Decided: (a) every layout conversion between matrix/affine types is an entry-for
 agrees with q*v modulo |q|^2 = 1; (c) matrix -> quaternion: each of the four branches of from_rotation_axes is Shepperd's formula for
 that branch, guarded by m22 <= 0, m11-m00 <= 0, m11+m00 <= 0, and from_mat3/mat3a/mat4 feed it the right columns; (d) affine product,
 inverse and the Mat4 embedding commute as polynomial identities, mixed matrix*affine products equal the embedded product.
-Not decided: that matrix -> quaternion -> matrix returns the same rotation (needs the orthogonality ideal) and branch conditioning."""
+(e) R-ROUNDTRIP: from_rotation_axes applied to the columns Mat3::from_quat(q) / DMat3::from_quat(q) actually computes returns +-q on each of
+its four branches, as an identity modulo |q|^2 = 1 (all ten products q'_i q'_j equal q_i q_j); since every rotation matrix is R(q) for a unit
+q this is the matrix -> quaternion -> matrix round trip in real arithmetic.
+Not decided: rounding along the round trip (the guards of (c) keep each branch's radicand >= 1, which is what bounds it)."""
 import re
 import terms as tm
 import nf
@@ -19,8 +22,8 @@ LEVEL = 'other'
 TECHNIQUE = 'provenance (bit-copy) analysis + polynomial/rational identity checking of conversions against reference mathematics; branch-wise Shepperd check'
 EXPLANATION = ('Decides for all inputs that conversions between representations move entries unchanged (so the converted object acts identically), that from_quat is the textbook matrix, '
                'that every branch of the trace-based matrix->quaternion conversion is the correct Shepperd formula with the documented guards, and that affine composition / inversion '
-               'commute with the Mat4 embedding.  The quaternion round trip for a rotation matrix needs the orthogonality relations and is not decided.')
-LEVEL_NOTE = 'Decides copy/identity clauses for all inputs; the SO(3) round trip is not claimed. Trusted: rustc MIR, intrinsic table, rules/spec.py.'
+               'commute with the Mat4 embedding, and that matrix -> quaternion applied to the matrix of a unit quaternion returns +-q on every branch (the round trip, in real arithmetic).')
+LEVEL_NOTE = 'Decides copy/identity clauses and the SO(3) round trip as real identities for all inputs; rounding along the round trip is not bounded. Trusted: rustc MIR, intrinsic table, rules/spec.py.'
 
 CONFIGS_QUICK = ['sse2', 'sse2-fma', 'sse41', 'scalar', 'coresimd', 'neon', 'wasm32']
 CONFIGS_THOROUGH = ['sse2', 'sse2-fma', 'sse41', 'scalar', 'coresimd', 'neon', 'wasm32']
@@ -60,6 +63,64 @@ def shepperd(S, alg, m):
         'z': scale([S.add(R(0, 2), R(2, 0)), S.add(R(1, 2), R(2, 1)), tz, S.sub(R(1, 0), R(0, 1))], tz),
         'w': scale([S.sub(R(2, 1), R(1, 2)), S.sub(R(0, 2), R(2, 0)), S.sub(R(1, 0), R(0, 1)), tw], tw),
     }
+
+
+def quat_roundtrip(F, H, M, it, rname):
+    """R-ROUNDTRIP: from_rotation_axes applied to the columns that <Mat3>::from_quat(q) computes returns q or -q, on each of its four branches,
+    as an identity modulo |q|^2 = 1: every product q'_i q'_j of the returned components equals q_i q_j (which says q' = +-q and needs no sign
+    reasoning about the square root).  Every rotation matrix is R(q) for some unit q, so this is the matrix -> quaternion -> matrix round trip
+    in real arithmetic wherever the branch's square root is non-zero.  -> None or the problem"""
+    from interp import Agg
+    from post import split_cases, residual
+    mt = 'Mat3' if rname == 'Quat' else 'DMat3'
+    key1 = None
+    for n1, it1 in F.items.items():
+        if it1.get('name') == 'from_quat' and not it1.get('trait') and not it1.get('generic') and (it1.get('self_ty') or '').rsplit('::', 1)[-1] == mt:
+            key1 = it1['key']
+            break
+    if key1 is None:
+        return '%s::from_quat not found' % mt
+    r1 = H.run(key1)
+    if r1.abort or r1.ret is None:
+        return '%s::from_quat not analysable: %s' % (mt, r1.abort)
+    b1 = F.body(key1)
+    qty = strip_ref(F, b1['locals'][1])[0]
+    qv = vec_info(F, qty)
+    if qv is None:
+        return 'argument of from_quat is not a quaternion'
+    qa = [atom_at(r1, 0, off) for (off, sz) in qv['lanes']]
+    ent = M.entries(r1.ret, b1['locals'][0])
+    if ent is None or any(a is None for a in qa):
+        return 'from_quat result / argument lanes not found'
+    b2 = F.body(it['key'])
+    av = {}
+    for c in range(3):
+        aty = strip_ref(F, b2['locals'][1 + c])[0]
+        vi = vec_info(F, aty)
+        ag = Agg(F.types[aty]['sz'])
+        for rr in range(3):
+            ag.cells[vi['lanes'][rr][0]] = (vi['esz'], ent[(c, rr)])
+        av[c] = ag
+    r2 = H.run(it['key'], arg_values=av)
+    if r2.abort or r2.ret is None:
+        return 'from_rotation_axes not analysable on the columns of from_quat: %s' % r2.abort
+    lanes = value_lanes(F, r2.ret, b2['locals'][0])
+    if lanes is None or len(lanes) != 4:
+        return 'result lanes not found'
+    cases = split_cases(lanes)
+    if cases is None:
+        return 'too many branches'
+    if len(cases) < 4:
+        return 'only %d distinct branches (Shepperd\'s method needs the largest of four candidates)' % len(cases)
+    for ci, ls in enumerate(cases):
+        quantities = []
+        for i in range(4):
+            for j in range(i, 4):
+                quantities.append(([tm.f2('fadd', tm.f2('fmul', ls[i], ls[j]), tm.f1('fneg', tm.f2('fmul', qa[i], qa[j])))], None))
+        ok, dec, text = residual(quantities, [qa])
+        if not ok:
+            return 'on branch %d the result is not +-q for the rotation matrix of a unit q (residual %s)' % (ci, text)
+    return None
 
 
 def run(ctx):
@@ -275,8 +336,13 @@ def run(ctx):
                         bad = 'entry (col %d,row %d) of the embedded result differs from the %s of the embedded operands' % (k[0], k[1], 'inverse' if mname == 'inverse' else 'product')
                         break
                 done('R-ALG', name, bad, it)
+        for n2, it2 in sorted(F.items.items()):
+            rn2 = (it2.get('self_ty') or '').rsplit('::', 1)[-1]
+            if it2.get('name') == 'from_rotation_axes' and not it2.get('trait') and not it2.get('generic') and rn2 in ('Quat', 'DQuat') and F.has_body(it2['key']):
+                done('R-ROUNDTRIP', n2 + ' o from_quat', quat_roundtrip(F, H, M, it2, rn2), it2)
         ctx.floor('layout conversion instances (%s)' % cfg, counts.get('R-COPY', 0), 40)
         ctx.floor('matrix->quaternion instances (%s)' % cfg, counts.get('R-SHEPPERD', 0), 7)
+        ctx.floor('quaternion -> matrix -> quaternion round trips (%s)' % cfg, counts.get('R-ROUNDTRIP', 0), 2)
         ctx.floor('from_quat / affine algebra instances (%s)' % cfg, counts.get('R-ALG', 0), 20)
         for k, v in sorted(counts.items()):
             ctx.count('%s:%s' % (k, cfg), v)
